@@ -27,7 +27,7 @@ deriving DecidableEq, Repr
 inductive CbKind | connection | message | writeComplete | highWater | close | read | write | error | closeEvent
 deriving DecidableEq, Repr
 
-inductive SysOp | write | readFd | shutdownWrite | getSocketError
+inductive SysOp | write | readFd | shutdownWrite | getSocketError | setTcpNoDelay
 deriving DecidableEq, Repr
 
 inductive BufKind | append | retrieve | retrieveAll
@@ -225,6 +225,43 @@ def handleEventWithGuard : List Skel :=
     .ite "dispError" [.ite "dispErrorSub" [.act (.cb .error)] []] [],
     .ite "dispRead" [.ite "dispReadSub" [.act (.cb .read)] []] [],
     .ite "dispWrite" [.ite "dispWriteSub" [.act (.cb .write)] []] [] ]
+
+/-! ### the remaining public entry points and forwarders -/
+
+/-- `Conn.act c foreign .startRead = handOff c foreign startReadDispatch .startReadInLoop startReadInLoop`: the request
+is handed to the loop UNCONDITIONALLY (inline on the loop thread, queued from any other) - nothing is tested in the
+calling thread; whether anything is to be done is decided by `startReadInLoop` (`startReadActs`), on the loop thread,
+where `reading` is current.  (A test of `reading_` in front of the hand-off reads a value that does not yet reflect
+the requests still queued: `stopRead(); startRead();` from another thread would drop the resume.) -/
+def startRead : List Skel := [ .act (.run "startReadInLoop") ]
+
+/-- `Conn.act c foreign .stopRead = handOff c foreign stopReadDispatch .stopReadInLoop stopReadInLoop`: as `startRead` -/
+def stopRead : List Skel := [ .act (.run "stopReadInLoop") ]
+
+/-- `Conn.act c foreign (.send d)`: `if sendAcceptsPiece c.st then (if foreign then enqueue .. (.sendInLoop d) else
+sendInLoop .. d false) else c`: the state test, then the explicit `isInLoopThread()` test; from another thread a
+COPY of the bytes (`as_string()`) travels with the functor -/
+def sendPiece : List Skel :=
+  [ .ite "sendAcceptsPiece"
+      [ .ite "loop_.isInLoopThread()" [.act (.call "sendInLoop")] [.act (.run "sendInLoop(message.as_string())")] ]
+      [] ]
+
+/-- the same for `send(Buffer*)` (`C01.overloads_agree`: `sendAcceptsBuf = sendAcceptsPiece`, same dispatch and hold);
+the caller's buffer is emptied in both branches - after the call on the loop thread, into the functor's copy otherwise -/
+def sendBuf : List Skel :=
+  [ .ite "sendAcceptsBuf"
+      [ .ite "loop_.isInLoopThread()"
+          [.act (.call "sendInLoop"), .act (.bufOp .retrieveAll "buf" "")]
+          [.act (.run "sendInLoop(buf.retrieveAllAsString())")] ]
+      [] ]
+
+/-- `send(const void*, int)` forwards to `send(StringPiece)`; `sendInLoop(StringPiece)` forwards to
+`sendInLoop(const void*, size_t)`: the model has one `Act.send` / one `Conn.sendInLoop` for all of them -/
+def sendPtr : List Skel := [ .act (.call "send") ]
+def sendInLoopPiece : List Skel := [ .act (.call "sendInLoop") ]
+
+/-- a socket option: no state of the model depends on it (the model has no operation for it) -/
+def setTcpNoDelay : List Skel := [ .act (.sys .setTcpNoDelay "on") ]
 
 /-! ### the trampolines that run the connection's weak functors, and the default callbacks
 
